@@ -38,7 +38,8 @@ CHECKS = {
         technique="CFG reachability/dominance rules + who-references rule (MIR)",
         text="Decides A1 (Succeeded short-circuit with the stored preimage), A2 (from Pending, pay only via wait==Ok(None) and mark_failed==Ok), A3 (lifecycle "
              "referenced once, inside Entry::or_insert_with's closure, spawned; single pay site outside loops), A4 (pay only via add_payment_attempt==Ok), "
-             "A5 (exactly one answer per lifecycle path).",
+             "A5 (exactly one answer per lifecycle path), A6 (provider clauses the restart path relies on), A7 (the Free marker is written only "
+             "generation-guarded, so a superseded attempt cannot erase a newer in-flight marker).",
         note="Not decided: a second lifecycle overlapping the first one's post-answer bookkeeping (mechanism clauses C02-S7/C08 are decided).",
         design="5/C05"),
     "C08": dict(
@@ -51,14 +52,15 @@ CHECKS = {
         technique="effect-sequence typestate: explicit fixed point over abstract stored images using write records extracted from MIR",
         text="Extracts (key kind, mode, generation guard, payload) of every datastore write per Datastore method, explores all images reachable by crashes / "
              "rejected / applied-but-failed writes, and requires every fault-free recovery write to be satisfiable on every reachable image; must-create keys "
-             "must be clock-fresh.",
+             "must be clock-fresh; (E) every lifecycle path, failed-write exits included, answers exactly once and thereby removes the table entry.",
         note="Assumes documented CLN datastore mode semantics; the lifecycle's choice of recovery call per stored state is decided by C02-S2/S4, C05-A2 (re-checked here).",
         design="5/C09"),
     "C11": dict(
         technique="def-use provenance of the timer value per reaching definition + select-arm path rules (MIR)",
         text="Decides T1 (sleep operand is mpp_timeout or mpp_timeout.saturating_sub(age of the stored attempt); Pending reaches the select only through that "
              "computation), T2 (is_zero guard => immediate 0x2019, no pay), T3 (timer arm answers 0x2019 once, cannot pay/write), T4 (nothing answered before "
-             "the select on the Free arm; operands are exactly timer/fail/ready).",
+             "the select on the Free arm; operands are exactly timer/fail/ready), T5 (option wiring), T6 (the timer is armed once: the sleep future is not "
+             "created inside a loop).",
         note="Not decided: wall-clock behaviour, tokio timer accuracy.",
         design="5/C11"),
     "C01": dict(
@@ -71,7 +73,8 @@ CHECKS = {
         technique="select-arm reachability + guard/provenance rules on the ready signal, the held sum and the PaymentRequest (MIR def-use, intervals)",
         text="Decides R1 (pay only via the ready arm), R2 (ready only behind fee_sufficient(held sum, amount) and no fail request; single send site), R3 (held "
              "sum discipline: one write, sum+htlc amount, overflow-free, counted<=>held), R4 (budget = held sum saturating-minus amount, read under the lock "
-             "after readiness), R5 (amount only for amountless invoices), R6 (provider forwards verbatim, no exemptfee/maxfeepercent/partial), R7 (held until fate known).",
+             "after readiness), R5 (amount only for amountless invoices), R6 (provider forwards verbatim, no exemptfee/maxfeepercent/partial), R7 (held until fate known), "
+             "R8 (amount table of the extractor), R9 (an HTLC whose TrampolineInfo, amount included, differs from the set's is rejected before it is counted).",
         note="Not decided: the inequality for every multiset by enumeration (follows from R2-R4 and C12); HTLC arrivals racing with the select.", design="5/C03"),
     "C04": dict(
         technique="operator-tree matching of the max-delay expression + who-writes rule on the minimum expiry + gate ordering (MIR)",
